@@ -10,10 +10,12 @@ package grpcv3
 // client with the denial; here the pipeline error alone is returned (the interceptor builds the denied
 // response from it), so a recorded challenge is lost whenever one is present
 //@ func (*RequestContext).Finalize
-//@   props C01 C12
+//@   props C01 C12 C13
 //@   ensures old(r.err) != nil ==> ret0 == nil && ret1 == old(r.err)
 //@   ensures old(r.err) == nil ==> ret1 == nil && ret0 != nil
 //@   ensures old(r.err) != nil ==> headerGet(old(r.upstreamHeaders), "WWW-Authenticate", old(hver)) == "" || ret0 != nil
+//@   assert at store Key#1: mapnext.n > old(mapnext.n) && iface(stored) == mapnext.arg0[mapnext.n - 1]
+//@   assert at store Value#1: stored == joinOf(headerValues(r.upstreamHeaders, unbox(mapnext.arg0[mapnext.n - 1], string), hver), ",")
 
 //@ func (*Handler).Check
 //@   props C01
